@@ -62,6 +62,8 @@ def body_plan(kind):
         return [('write', 'partial\n'), ('raise', 'SystemExit'), ('write', 'never\n')]
     if kind == 'kbint':
         return [('write', 'partial\n'), ('raise', 'KeyboardInterrupt')]
+    if kind == 'closes_raises':     # the body closes the part file itself (nested `with f:`), then fails
+        return [('write', 'partial\n'), ('close',), ('raise',)]
     raise AssertionError(kind)
 
 
@@ -88,7 +90,7 @@ def configs(tier):
     base = {'overwrite': True, 'overwrite_part': False, 'rm_part_on_exc': True, 'text_mode': False, 'file_perms': None,
             'umask': 0o022, 'dest_present': True, 'part_present': False, 'body': 'small'}
     # the body leaves through SystemExit / KeyboardInterrupt (sys.exit(), Ctrl-C) after a partial write
-    for body in ('sysexit', 'kbint'):
+    for body in ('sysexit', 'kbint', 'closes_raises'):
         for text in (False, True):
             for dest in (False, True):
                 for rm_part in (True, False):
@@ -164,13 +166,18 @@ class Scenario:
             alts.append(('pre', self.other_process_creates_dest, 'another process creates the destination'))
         return alts
 
-    def run(self, env):
+    def run(self, env, set_umask=True):
+        """set_umask=False: run under whatever umask the process has now (the retry after a failed save must see the
+        process state that save left behind)."""
         from boltons import fileutils
         cfg = self.cfg
         proxy = envfaults.OSProxy(env)
         saved = fileutils.os
         fileutils.os = proxy
-        old_umask = os.umask(cfg['umask'])
+        if set_umask:
+            prev = os.umask(cfg['umask'])
+            if getattr(self, 'harness_umask', None) is None:
+                self.harness_umask = prev       # restored by restore_umask() once the execution has been judged
         f = None
         try:
             kw = {'text_mode': cfg['text_mode'], 'overwrite': cfg['overwrite'],
@@ -195,6 +202,8 @@ class Scenario:
                     for st in self.plan:
                         if st[0] == 'write':
                             f.write(st[1] if cfg['text_mode'] else st[1].encode('utf-8'))
+                        elif st[0] == 'close':
+                            f.close()
                         elif st[0] == 'raise':
                             raise self.body_exc('body failed')
                 return None
@@ -203,7 +212,6 @@ class Scenario:
             except BaseException as e:      # noqa - SystemExit / KeyboardInterrupt bodies are part of the alphabet
                 return e
         finally:
-            os.umask(old_umask)
             fileutils.os = saved
             env.closed = True
             try:
@@ -211,6 +219,12 @@ class Scenario:
                     f.close()      # harness hygiene only (fd leak), after the observation point
             except Exception:
                 pass
+
+
+def restore_umask(sc):
+    if getattr(sc, 'harness_umask', None) is not None:
+        os.umask(sc.harness_umask)
+        sc.harness_umask = None
 
 
 def stat_of(path):
@@ -272,7 +286,8 @@ def judge(sc, env, exc, before, retry=True):
             out.append(('part file left after a completed save', None, part1[1][:30]))
         return out
     # the caller saw an exception
-    if sc.body_raises and not fired and not refused_expected and type(exc) is not sc.body_exc:
+    closes = any(st[0] == 'close' for st in sc.plan)
+    if sc.body_raises and not fired and not refused_expected and type(exc) is not sc.body_exc and not closes:
         out.append(('body exception replaced', sc.body_exc.__name__, type(exc).__name__))
     if published:
         # the fault hit after publication (e.g. unlink(src) after link): destination legitimately holds the new content
@@ -297,16 +312,27 @@ def judge(sc, env, exc, before, retry=True):
         out.append(('part file left behind after a failed save', 'no part file', part1[1][:30]))
     if cfg['rm_part_on_exc'] and mine and published and not unlink_failed:
         out.append(('part file left behind after publication', 'no part file', part1[1][:30]))
+    # the process umask is what "the umask default" of later saves refers to: a save must leave it as it found it
+    cur = os.umask(0)
+    os.umask(cur)
+    if cur != cfg['umask']:
+        out.append(('process umask changed by the save', oct(cfg['umask']), oct(cur)))
     # retry
     if retry and cfg['rm_part_on_exc'] and not unlink_failed and not published:
         blocked = (not cfg['overwrite'] and os.path.lexists(sc.dest)) or \
                   (part0 is not None and not cfg['overwrite_part'])
         if not blocked and not sc.body_raises:
             env2 = envfaults.Env()
-            exc2 = sc.run(env2)
+            dprev = stat_of(sc.dest)
+            exc2 = sc.run(env2, set_umask=False)
             d2 = stat_of(sc.dest)
             if exc2 is not None or d2 is None or d2[1] != sc.new:
                 out.append(('immediate retry fails', 'retry succeeds', repr(exc2)))
+            elif not cfg.get('reuse'):
+                want2 = {cfg['file_perms']} if cfg['file_perms'] is not None else \
+                    {dprev[0]} if dprev is not None else {0o666 & ~cfg['umask']}
+                if d2[0] not in want2:
+                    out.append(('permissions after the retry of a failed save', sorted(oct(w) for w in want2), oct(d2[0])))
     return out
 
 
@@ -347,6 +373,12 @@ def run_config(task):
         return exc
 
     def on_exec(env, exc):
+        try:
+            judge_exec(env, exc)
+        finally:
+            restore_umask(sc)
+
+    def judge_exec(env, exc):
         faults = fault_label(env)
         t.count(nontrivial=bool(env.fired), sample={'config': cfg, 'faults': faults,
                                                     'exception': type(exc).__name__ if exc else None})
@@ -400,7 +432,10 @@ def replay(ctx, data):
         sc.prepare()
         env = envfaults.Env(case['script'], sc.menu)
         exc = sc.run(env)
-        return ['%s (faults %s): expected %r observed %r' % (w, fault_label(env), e, o)
-                for w, e, o in judge(sc, env, exc, sc.before)]
+        try:
+            return ['%s (faults %s): expected %r observed %r' % (w, fault_label(env), e, o)
+                    for w, e, o in judge(sc, env, exc, sc.before)]
+        finally:
+            restore_umask(sc)
     finally:
         shutil.rmtree(base, ignore_errors=True)
